@@ -1,7 +1,7 @@
 /* Standalone reproduction of the HTTP writer defects found by check C26: the octets evhttp puts on the wire.
  *   cc -I/verif/build/asan/include -I/repo/include repro.c -o repro -fsanitize=address \
  *      -L/verif/build/asan/lib -levent_extra -levent_core -lpthread
- *   ./repro reason | target | bodiless | stream10
+ *   ./repro reason | target | bodiless | stream10 | blankline
  */
 #include <sys/socket.h>
 #include <netinet/in.h>
@@ -25,6 +25,10 @@ static void gen_cb(struct evhttp_request *req, void *arg)
 	struct evbuffer *b = evbuffer_new();
 	if (!strcmp(mode, "reason")) {            /* reason phrase supplied by the application (e.g. from upstream) */
 		evhttp_send_reply(req, 200, "OK\r\nSet-Cookie: injected=1", b);
+	} else if (!strcmp(mode, "blankline")) {  /* header value with an empty line before the continuation */
+		printf("evhttp_add_header(out, \"X-Note\", \"a\\r\\n\\r\\n <html>injected body</html>\") = %d\n",
+		    evhttp_add_header(evhttp_request_get_output_headers(req), "X-Note", "a\r\n\r\n <html>injected body</html>"));
+		evhttp_send_reply(req, 200, "OK", b);
 	} else if (!strcmp(mode, "bodiless")) {   /* same handler answers GET and HEAD */
 		evbuffer_add_printf(b, "HTTP/1.1 200 OK\r\nContent-Length: 4\r\n\r\nEVIL");
 		evhttp_send_reply(req, 200, "OK", b);
